@@ -714,15 +714,14 @@ func (db *PgDB) describe(sql string) ([]pgproto3.FieldDescription, error) {
 	case st.GetSelectStmt() != nil:
 		s := st.GetSelectStmt()
 		if rels, _, ok := joinOf(s); ok {
-			probe := *s
-			probe.WhereClause = nil
+			probe := &pg_query.SelectStmt{TargetList: s.TargetList, FromClause: s.FromClause}
 			saved := map[string][][][]byte{}
 			for _, rv := range rels {
 				if t := db.Tables[relName(rv)]; t != nil {
 					saved[t.Name], t.Rows = t.Rows, nil
 				}
 			}
-			res, err := db.execJoin(&probe, rels, nil, nil, nil)
+			res, err := db.execJoin(probe, rels, nil, nil, nil)
 			for _, rv := range rels {
 				if t := db.Tables[relName(rv)]; t != nil {
 					t.Rows = saved[t.Name]
